@@ -113,30 +113,45 @@ double __CPROVER_uninterpreted_negd (double);
 /* -DCXX2C_ABS_COMM (the re-check of a refuted ABS obligation, core.py): + and * are COMMUTATIVE uninterpreted functions (IEEE addition and multiplication are commutative bit for bit, NaN payloads aside), so
  * that a harmless a*b -> b*a edit in one of two copies is not reported: the operands are put into a canonical order (by value, -0 before +0)
  * before the uninterpreted symbol is applied, and a NaN operand gives that NaN (all NaNs are identified by FEQ). */
-#define CXX2C_COMM(name, T, uf, sgn)                                                                        \
+#define CXX2C_QNANF (0.0f / 0.0f)
+#define CXX2C_QNAND (0.0 / 0.0)
+#define CXX2C_COMM(name, T, uf, sgn, qnan)                                                                  \
     static inline T name (T a, T b)                                                                         \
     {                                                                                                       \
-        if (a != a) return a;                                                                               \
-        if (b != b) return b;                                                                               \
+        if (a != a || b != b) return qnan; /* one canonical NaN: payloads never reach a symbol */           \
         _Bool swap = (b < a) || (a == b && sgn (b) && !sgn (a));                                            \
         return swap ? uf (b, a) : uf (a, b);                                                                \
     }
-CXX2C_COMM (cxx2c_abs_addf, float, __CPROVER_uninterpreted_addf, __CPROVER_signf)
-CXX2C_COMM (cxx2c_abs_mulf, float, __CPROVER_uninterpreted_mulf, __CPROVER_signf)
-CXX2C_COMM (cxx2c_abs_addd, double, __CPROVER_uninterpreted_addd, __CPROVER_signd)
-CXX2C_COMM (cxx2c_abs_muld, double, __CPROVER_uninterpreted_muld, __CPROVER_signd)
+/* - and / (not commutative) and the one-argument libm symbols only get the NaN rule under CXX2C_ABS_COMM */
+#define CXX2C_NANPROP2(name, T, uf, qnan) static inline T name (T a, T b) { if (a != a || b != b) return qnan; return uf (a, b); }
+CXX2C_COMM (cxx2c_abs_addf, float, __CPROVER_uninterpreted_addf, __CPROVER_signf, CXX2C_QNANF)
+CXX2C_COMM (cxx2c_abs_mulf, float, __CPROVER_uninterpreted_mulf, __CPROVER_signf, CXX2C_QNANF)
+CXX2C_COMM (cxx2c_abs_addd, double, __CPROVER_uninterpreted_addd, __CPROVER_signd, CXX2C_QNAND)
+CXX2C_COMM (cxx2c_abs_muld, double, __CPROVER_uninterpreted_muld, __CPROVER_signd, CXX2C_QNAND)
+CXX2C_NANPROP2 (cxx2c_abs_subf, float, __CPROVER_uninterpreted_subf, CXX2C_QNANF)
+CXX2C_NANPROP2 (cxx2c_abs_divf, float, __CPROVER_uninterpreted_divf, CXX2C_QNANF)
+CXX2C_NANPROP2 (cxx2c_abs_subd, double, __CPROVER_uninterpreted_subd, CXX2C_QNAND)
+CXX2C_NANPROP2 (cxx2c_abs_divd, double, __CPROVER_uninterpreted_divd, CXX2C_QNAND)
 #ifdef CXX2C_ABS_COMM
 #define IM_ADD(T, a, b) _Generic ((T) 0, float : cxx2c_abs_addf ((float) (a), (float) (b)), double : cxx2c_abs_addd ((double) (a), (double) (b)), default : ((a) + (b)))
 #else
 #define IM_ADD(T, a, b) _Generic ((T) 0, float : __CPROVER_uninterpreted_addf ((float) (a), (float) (b)), double : __CPROVER_uninterpreted_addd ((double) (a), (double) (b)), default : ((a) + (b)))
 #endif
+#ifdef CXX2C_ABS_COMM
+#define IM_SUB(T, a, b) _Generic ((T) 0, float : cxx2c_abs_subf ((float) (a), (float) (b)), double : cxx2c_abs_subd ((double) (a), (double) (b)), default : ((a) - (b)))
+#else
 #define IM_SUB(T, a, b) _Generic ((T) 0, float : __CPROVER_uninterpreted_subf ((float) (a), (float) (b)), double : __CPROVER_uninterpreted_subd ((double) (a), (double) (b)), default : ((a) - (b)))
+#endif
 #ifdef CXX2C_ABS_COMM
 #define IM_MUL(T, a, b) _Generic ((T) 0, float : cxx2c_abs_mulf ((float) (a), (float) (b)), double : cxx2c_abs_muld ((double) (a), (double) (b)), default : ((a) * (b)))
 #else
 #define IM_MUL(T, a, b) _Generic ((T) 0, float : __CPROVER_uninterpreted_mulf ((float) (a), (float) (b)), double : __CPROVER_uninterpreted_muld ((double) (a), (double) (b)), default : ((a) * (b)))
 #endif
+#ifdef CXX2C_ABS_COMM
+#define IM_DIV(T, a, b) _Generic ((T) 0, float : cxx2c_abs_divf ((float) (a), (float) (b)), double : cxx2c_abs_divd ((double) (a), (double) (b)), default : ((a) / (b)))
+#else
 #define IM_DIV(T, a, b) _Generic ((T) 0, float : __CPROVER_uninterpreted_divf ((float) (a), (float) (b)), double : __CPROVER_uninterpreted_divd ((double) (a), (double) (b)), default : ((a) / (b)))
+#endif
 /* negation stays concrete: it is exact (a sign flip) and the code compares against -max() */
 #define IM_NEG(T, a) (-(a))
 #else
@@ -179,7 +194,11 @@ static inline double cxx2c_sqrt (double x)
 #endif
     return r;
 }
+#ifdef CXX2C_ABS_COMM
+#define CXX2C_UF1(name, T) T __CPROVER_uninterpreted_##name (T); static inline T cxx2c_##name (T x) { if (x != x) return (T) (0.0 / 0.0); return __CPROVER_uninterpreted_##name (x); }
+#else
 #define CXX2C_UF1(name, T) T __CPROVER_uninterpreted_##name (T); static inline T cxx2c_##name (T x) { return __CPROVER_uninterpreted_##name (x); }
+#endif
 #define CXX2C_UF2(name, T) T __CPROVER_uninterpreted_##name (T, T); static inline T cxx2c_##name (T x, T y) { return __CPROVER_uninterpreted_##name (x, y); }
 CXX2C_UF1 (sinf, float) CXX2C_UF1 (sin, double) CXX2C_UF1 (cosf, float) CXX2C_UF1 (cos, double)
 CXX2C_UF1 (tanf, float) CXX2C_UF1 (tan, double) CXX2C_UF1 (acosf, float) CXX2C_UF1 (acos, double)
